@@ -201,14 +201,16 @@ def check_scenario(scn, ev, upto=None, witness_combo=None, kind="missing"):
             ev.stat("functions_reading_each_length_twice")
         if fi >= 1:
             ev.stat("functions_run_after_another_with_same_config")
-        # O1: on every input a path admits (within the configured candidates) it returns exactly that input's lengths
+        # O1: on every input a path admits it returns exactly that input's lengths
         in_cands = [z3.Or(*[s == z3.BitVecVal(v, 256) for v in o]) for s, o in zip(syms, own)]
         bad, wrong = None, None
         for (c, words, err), pc in zip(res["paths"], pcs):
             if err is not None or words is None:
                 bad = f"path ended with {err}"
                 break
-            st, m, _ = C.solve([pc] + in_cands + [z3.Or(*[s != w for s, w in zip(syms * (len(words) // max(1, len(syms))), words)])])
+            # (no restriction to the configured candidates here: whatever input a reported path admits must have the
+            # lengths that were read on that path)
+            st, m, _ = C.solve([pc] + [z3.Or(*[s != w for s, w in zip(syms * (len(words) // max(1, len(syms))), words)])])
             if st == "sat":
                 combo = []
                 for s in syms:
